@@ -105,8 +105,11 @@ def _real_trace_ok(res, run):
   closes = [e for e in ev if e[0] == "close"]
   if res["status"] != "ok": bad.append("run does not complete: " + res["detail"][:200])
   if len([e for e in ev if e[0] == "terminate"]) != 1: bad.append("terminate called %d times" % len([e for e in ev if e[0] == "terminate"]))
+  created = len([e for e in ev if e[0] == "open"])        # a play() refused by an already closed manager opens nothing
   for p in range(P):
-    if len([e for e in closes if e[1] == p]) != 1: bad.append("stream %d closed %d times" % (p, len([e for e in closes if e[1] == p])))
+    want_closes = 1 if p < created else 0
+    if len([e for e in closes if e[1] == p]) != want_closes:
+      bad.append("stream %d closed %d times" % (p, len([e for e in closes if e[1] == p])))
   if res.get("raised_after_close") is not True: bad.append("play after close did not raise")
   opens = [i for i, e in enumerate(ev) if e[0] == "open"]
   terms = [i for i, e in enumerate(ev) if e[0] == "terminate"]
@@ -129,7 +132,7 @@ def _real_trace_ok(res, run):
   # chunks: consecutive prefix of the audio, complete unless the player was stopped
   CH = run.get("chunk_size", 2)
   import struct
-  for p in range(P):
+  for p in range(min(P, created)):
     ws = res.get("writes", {}).get(str(p), [])
     want = [float(i % 3) for i in range(run["L"][p] * CH)]
     got = []
